@@ -817,7 +817,7 @@ func main() {
 	reduced := []int{-1, 3, 5, 8, 11}
 	if r.Thorough() {
 		bfs("all 13 deltas", full, 3)
-		bfs("5 boundary deltas", reduced, 5)
+		bfs("5 boundary deltas", reduced, 4)
 	} else {
 		bfs("all 13 deltas", full, 2)
 		bfs("5 boundary deltas", reduced, 3)
